@@ -82,6 +82,11 @@ CHECKS = {
         "note": "Trusted: TLC, dyadic parameter choice (IEEE arithmetic exact), zero-coupling baths for the exact part. The differential part is numerical (tolerance 1e-8 at epsrel 1e-13).",
         "technique": "TLA+ exact-arithmetic spec + TLC enumeration; user field equation as trace hook; spec->code comparison of evaluations and fields",
     },
+    "C11": {
+        "text": "Gibbs.tla steps the imaginary-time propagation slice by slice in exact Gaussian-integer arithmetic (P^(2k) for Hermitian positive P, Hermiticity/positivity checked by TLC on every state) and states the slice-pair counts of the influence functional; Stepper.tla (kind gibbs) covers every history of compute()/get_state(). Real GibbsTempo runs at zero coupling with H = -(2/dbeta) logm(P), real and complex, are compared entrywise with the spec's matrix powers at every slice; commuting models with the lattice Matsubara probe bath are decoded to the slice-pair counts; histories are replayed; every returned state must be normalised, Hermitian and positive.",
+        "note": "Trusted: TLC, scipy logm for building H from P, lattice probe bath. The reorganisation-energy closed form and n_steps-independence for real spectral densities are numerical: only a loose cross-check (1e-5) is run and labelled as such.",
+        "technique": "TLA+ exact-arithmetic spec + TLC; spec->code replay with integer propagators; history replay from Stepper.tla",
+    },
 }
 for e in ENGINES:
     e["serves_properties"] = sorted(CHECKS)
